@@ -14,6 +14,7 @@ import hashlib
 from amaranth import Elaboratable, Module
 
 from dsim.kernel import make_bench, cached_bench, Violations
+from models.usb2_wire import gen_idle_data
 
 PROPERTY = "C05"
 ENGINE = "usb2_wire"
@@ -90,6 +91,7 @@ def _gen_device(rng, tier, index):
         ops.append({"op": "out", "ep": rng.choice([1, 1, 2, 7]), "pid": f"DATA{tog}", "data": bytes(rng.getrandbits(8) for _ in range(n)).hex(),
                     "tok_gap": rng.choice([2, 2, 3, 5, 9]), "gap": rng.choice([100, 120, 200, 400])})
         tog ^= 1
+    cfg["idle_data"] = gen_idle_data(rng)
     return {"engine": "usb2_device", "config": cfg, "ops": ops}
 
 
@@ -265,7 +267,7 @@ def _run_device(scn):
 
     low = cfg["speed"] == "low"
     line_idle = 0b10 if low else 0b01
-    host = usb2.UTMIHost(script, byte_period=cfg["byte_period"], pre=cfg["pre"], post=cfg["post"], line_idle=line_idle)
+    host = usb2.UTMIHost(script, idle_data=cfg.get("idle_data"), byte_period=cfg["byte_period"], pre=cfg["pre"], post=cfg["post"], line_idle=line_idle)
     mon = Mon()
     init = dict(IDLE_INIT)
     init.update(out1_ready=1, line_state=line_idle, full_speed_only=int(not low), low_speed_only=int(low))
